@@ -575,6 +575,17 @@ class _Run:
             return
 
         firm = {n for n, op in self.objs.items() if not op["expired"]}
+        # an operation that raised has an unknown effect: its object carries no further verdicts, and a raised registry /
+        # subscription operation leaves the whole history unjudged (the exception itself is already reported)
+        judge_history = True
+        for r in recs:
+            if r["exc"] is not None:
+                if r["kind"] == "add":
+                    firm.discard(r["op"]["n"])
+                elif r["kind"] in ("update", "delete"):
+                    firm.discard(r["op"]["ref"])
+                elif r["kind"] not in ("collect_trash", "attend", "query"):
+                    judge_history = False
         add_rec = {r["op"]["n"]: r for r in recs if r["kind"] == "add"}
         gc_passes = [p for p in self.passes if p["kind"] == "gc" and p["ret"] is not None]
         att_passes = [p for p in self.passes if p["kind"] == "att" and p["ret"] is not None]
@@ -651,7 +662,10 @@ class _Run:
                                      f"object #{n} (expired, never deleted) is missing from query {q['label']} although no maintenance pass had begun")
 
         # ---- linearizability of the API calls against the reference model (firm objects)
-        self.linearize(done, firm, cluster, entities, overlap)
+        if judge_history:
+            self.linearize(done, firm, cluster, entities, overlap)
+        else:
+            self.probe("history-not-judged-after-exception")
 
         # ---- attendance passes: subscriptions neither lost nor resurrected, plausible content
         sub_rec = {r["op"]["n"]: r for r in recs if r["kind"] == "subscribe"}
